@@ -160,10 +160,13 @@ impl Malform {
 
 #[derive(Clone, Debug)]
 enum What {
-    Rd { item: usize, variant: Variant, reseal: usize, malform: Malform },
+    /// `stream`: drive the Stream-returning API (`records()`, `record_bufs()`, `lines()`) instead of the read_* calls
+    Rd { item: usize, variant: Variant, reseal: usize, malform: Malform, stream: bool },
     Sk { item: usize, reseal: usize, hseed: u64 },
     Qy { data: usize, index: usize, mode: qy::Mode, qseed: u64 },
     Wr { item: usize, level: Option<u8> },
+    /// seeded BGZF write / flush history (payload class, length, split pattern, flush after every n-th write, level)
+    Wb { class: &'static str, len: usize, split: &'static str, flush_every: usize, level: u8, pseed: u64 },
 }
 
 #[derive(Clone, Debug)]
@@ -187,14 +190,17 @@ fn variant_name(v: Variant) -> &'static str {
 
 fn case_json(w: &World, c: &Case) -> Value {
     let what = match &c.what {
-        What::Rd { item, variant, reseal, malform } => {
-            json!({"kind": "RD", "item": w.items[*item].name, "variant": variant_name(*variant), "reseal_block_len": reseal, "malform": format!("{malform:?}")})
+        What::Rd { item, variant, reseal, malform, stream } => {
+            json!({"kind": "RD", "item": w.items[*item].name, "variant": variant_name(*variant), "reseal_block_len": reseal, "malform": format!("{malform:?}"), "stream_api": stream})
         }
         What::Sk { item, reseal, hseed } => json!({"kind": "SK", "item": w.items[*item].name, "reseal_block_len": reseal, "hseed": hseed}),
         What::Qy { data, index, mode, qseed } => {
             json!({"kind": "QY", "data": w.items[*data].name, "index": w.items[*index].name, "mode": mode.name(), "qseed": qseed})
         }
         What::Wr { item, level } => json!({"kind": "WR", "item": w.items[*item].name, "level": level}),
+        What::Wb { class, len, split, flush_every, level, pseed } => {
+            json!({"kind": "WB", "class": class, "len": len, "split": split, "flush_every": flush_every, "level": level, "pseed": pseed})
+        }
     };
     json!({"what": what, "cfgs": c.cfgs.iter().map(cfg_json).collect::<Vec<_>>()})
 }
@@ -274,7 +280,7 @@ fn gen_world(ctx: &Ctx) -> World {
     let mut cases = Vec::new();
     let item_filter = ctx.param("item").map(|s| s.to_string());
     let per_case = ctx.budget("pairs_per_case", 8, 16) as usize;
-    let n_rot = ctx.budget("cfgs", if tiny { 2 } else { 7 }, 0) as usize; // 0 = full product
+    let n_rot = ctx.budget("cfgs", if tiny { 2 } else { 10 }, 0) as usize; // 0 = full product
     let seed = ctx.seed;
     let only = ctx.param("only").map(|s| s.to_string());
     let want = |k: &str| only.as_deref().map(|o| o.split(',').any(|x| x == k)).unwrap_or(true);
@@ -286,7 +292,22 @@ fn gen_world(ctx: &Ctx) -> World {
                 let bgzf = rd::uses_bgzf(item.kind);
                 let salt = salt_of(&item.name, variant as u64);
                 let cfgs = if n_rot > 0 { cfgs_rotating(n_rot, salt, seed, bgzf, item.bytes.len()) } else { cfgs_product(salt, seed, bgzf, item.bytes.len()) };
-                chunked(What::Rd { item: i, variant, reseal: 0, malform: Malform::None }, cfgs, per_case, &mut cases);
+                chunked(What::Rd { item: i, variant, reseal: 0, malform: Malform::None, stream: false }, cfgs, per_case, &mut cases);
+            }
+        }
+    }
+    // --- RD: the Stream-returning APIs on valid inputs and on one truncated version each
+    if want("rd") || want("stream") {
+        for (i, item) in items.iter().enumerate() {
+            for &variant in rd::stream_variants(item.kind) {
+                let bgzf = rd::uses_bgzf(item.kind);
+                let salt = salt_of(&item.name, 300 + variant as u64);
+                let n = if n_rot > 0 { (n_rot / 2).max(2) } else { 48 };
+                chunked(What::Rd { item: i, variant, reseal: 0, malform: Malform::None, stream: true }, cfgs_rotating(n, salt, seed, bgzf, item.bytes.len()), per_case, &mut cases);
+                if !tiny && item.bytes.len() >= 4 && item.bytes.len() <= 300_000 {
+                    let m = Malform::Truncate(item.bytes.len() * 2 / 3);
+                    chunked(What::Rd { item: i, variant, reseal: 0, malform: m, stream: true }, cfgs_rotating(2, salt + 1, seed, bgzf, item.bytes.len()), per_case, &mut cases);
+                }
             }
         }
     }
@@ -307,9 +328,9 @@ fn gen_world(ctx: &Ctx) -> World {
             }
             let block_len = (plen / 48).clamp(150, 3000);
             let salt = salt_of(&item.name, 77);
-            let cfgs = cfgs_schedules(salt, seed, item.bytes.len(), if quick { 2 } else { 4 });
+            let cfgs = cfgs_schedules(salt, seed, item.bytes.len(), if quick { 3 } else { 4 });
             let variant = *rd::async_variants(item.kind).last().unwrap();
-            chunked(What::Rd { item: i, variant, reseal: block_len, malform: Malform::None }, cfgs, per_case, &mut cases);
+            chunked(What::Rd { item: i, variant, reseal: block_len, malform: Malform::None, stream: false }, cfgs, per_case, &mut cases);
             n_sched += 1;
             if tiny && n_sched >= 1 {
                 break;
@@ -319,7 +340,7 @@ fn gen_world(ctx: &Ctx) -> World {
     // --- RD: malformed inputs
     if want("mal") && !tiny {
         for (i, item) in items.iter().enumerate() {
-            if quick && item.bytes.len() > 30_000 {
+            if quick && item.bytes.len() > 100_000 {
                 continue;
             }
             if !quick && item.bytes.len() > 300_000 {
@@ -328,16 +349,16 @@ fn gen_world(ctx: &Ctx) -> World {
             for &variant in rd::async_variants(item.kind) {
                 for (mi, m) in malforms(item, quick).into_iter().enumerate() {
                     let salt = salt_of(&item.name, 1000 + mi as u64 + 100 * variant as u64);
-                    let n = if quick { 2 } else { 6 };
+                    let n = if quick { 3 } else { 6 };
                     let cfgs = cfgs_rotating(n, salt, seed, rd::uses_bgzf(item.kind), item.bytes.len());
-                    chunked(What::Rd { item: i, variant, reseal: 0, malform: m }, cfgs, per_case, &mut cases);
+                    chunked(What::Rd { item: i, variant, reseal: 0, malform: m, stream: false }, cfgs, per_case, &mut cases);
                 }
             }
         }
     }
     // --- SK: BGZF histories with seeks
     if want("sk") {
-        let n_hist = ctx.budget("seek_histories", if tiny { 1 } else { 3 }, 24) as u64;
+        let n_hist = ctx.budget("seek_histories", if tiny { 1 } else { 4 }, 24) as u64;
         for (i, item) in items.iter().enumerate() {
             let eligible = item.kind == Kind::Bgzf || (item.kind == Kind::Bam && item.name.contains("multiblock")) || (!quick && matches!(item.kind, Kind::VcfGz | Kind::Bcf) && item.name.contains("manyblocks"));
             if !eligible || (quick && item.bytes.len() > 100_000) {
@@ -362,7 +383,7 @@ fn gen_world(ctx: &Ctx) -> World {
     }
     // --- QY: region queries
     if want("qy") && !tiny {
-        let n_q = ctx.budget("query_seeds", 2, 12) as u64;
+        let n_q = ctx.budget("query_seeds", 3, 12) as u64;
         for (ix, index) in items.iter().enumerate() {
             let Some(dname) = &index.side.indexed_item else { continue };
             let Some(dx) = items.iter().position(|d| &d.name == dname) else { continue };
@@ -396,12 +417,43 @@ fn gen_world(ctx: &Ctx) -> World {
                 let salt = salt_of(&item.name, 20_000 + li as u64);
                 let n = if n_rot > 0 { if tiny { 2 } else { 5 } } else { 48 };
                 let mut cfgs = cfgs_rotating(n, salt, seed, bgzf, model_len);
-                if bgzf && model_len > 100_000 {
+                let multi_block = model_len > 100_000 || item.side.flush_every > 0 || item.name.contains("flushes") || item.name.contains("tinyblocks");
+                if bgzf && multi_block && !tiny {
                     // several blocks: add schedule configurations (every worker count, active plans)
                     cfgs.extend(cfgs_schedules(salt, seed, model_len, if quick { 1 } else { 3 }));
                 }
                 chunked(What::Wr { item: i, level }, cfgs, per_case, &mut cases);
             }
+        }
+    }
+    // --- WB: seeded BGZF write histories (lengths around the staging limit, odd splits, flush patterns, every level)
+    if want("wb") {
+        let n_hist = ctx.budget("bgzf_histories", if tiny { 2 } else { 30 }, 500) as usize;
+        let mut rng = Rng::new(seed, 0xB7, 0);
+        let boundary = vcore::payload::boundary_lengths();
+        for h in 0..n_hist {
+            let class = *rng.pick(&["text", "dna", "random", "runs", "skewed", "qualities", "random_with_repeats", "zeros", "cycle256"]);
+            let len = match h % 5 {
+                0 => *rng.pick(&boundary),
+                1 => rng.urange(0, 3000),
+                2 => rng.urange(60_000, 140_000),
+                3 => rng.urange(3, 9) * 65280 + rng.urange(0, 2) * 65280 / 2,
+                _ => rng.urange(200_000, if quick { 500_000 } else { 1_500_000 }),
+            };
+            let len = if tiny { len.min(2000) } else { len };
+            let split = if len <= 3000 { *rng.pick(&["all", "ones", "small", "halves"]) } else { *rng.pick(&["all", "mixed", "blocks", "halves", "mixed"]) };
+            let flush_every = *rng.pick(&[0usize, 0, 1, 2, 3, 7]);
+            let level = rng.below(10) as u8;
+            let pseed = seed.wrapping_mul(1_000_003).wrapping_add(h as u64);
+            let salt = salt_of(class, 40_000 + h as u64);
+            let mut cfgs = cfgs_rotating(if quick { 3 } else { 6 }, salt, seed, true, len.max(1));
+            if len > 130_000 && !tiny {
+                cfgs.extend(cfgs_schedules(salt, seed, len, 1).into_iter().skip(h % 3).step_by(3));
+            }
+            for c in &mut cfgs {
+                c.script = scale_script(c.script.clone(), len.max(1), 150_000);
+            }
+            chunked(What::Wb { class, len, split, flush_every, level, pseed }, cfgs, per_case, &mut cases);
         }
     }
     if let Some(f) = &item_filter {
@@ -560,14 +612,14 @@ fn run_err(o: &mut CaseOut, sig_prefix: &str, what: &str, cfg: &Cfg, e: RunErr) 
     }
 }
 
-fn run_rd(w: &World, o: &mut CaseOut, item: &Item, variant: Variant, reseal: usize, malform: &Malform, cfgs: &[Cfg]) {
+fn run_rd(w: &World, o: &mut CaseOut, item: &Item, variant: Variant, reseal: usize, malform: &Malform, stream: bool, cfgs: &[Cfg]) {
     let kind = item.kind;
     let module = kind.name();
     let base = resealed(item, reseal);
     let bytes = apply_malform(&base, malform);
     let _ = w;
     let side = item.side.clone();
-    let part = if *malform != Malform::None { "reader_malformed" } else if reseal > 0 { "reader_reblocked" } else { "reader_valid" };
+    let part = if stream { "reader_stream_api" } else if *malform != Malform::None { "reader_malformed" } else if reseal > 0 { "reader_reblocked" } else { "reader_valid" };
     // sync oracle
     let expected = match guard::catch(|| corpus::transcript_read_variant(kind, variant, &bytes[..], &side, false, corpus::DEFAULT_CAP)) {
         Ok(t) => t,
@@ -579,6 +631,9 @@ fn run_rd(w: &World, o: &mut CaseOut, item: &Item, variant: Variant, reseal: usi
             return;
         }
     };
+    let sync_msg = corpus::last_error_message();
+    // a stream borrows the reader: no virtual positions in between
+    let expected: Vec<String> = if stream { expected.into_iter().filter(|s| !s.starts_with("V:")).collect() } else { expected };
     if *malform == Malform::None && expected.last().map(|s| s.as_str()) != Some("END") {
         o.inconclusive.push(format!("{}: the sync transcript of a valid item ends with {:?}", item.name, expected.last()));
     }
@@ -587,7 +642,8 @@ fn run_rd(w: &World, o: &mut CaseOut, item: &Item, variant: Variant, reseal: usi
     }
     let frames = if rd::uses_bgzf(kind) { frames_of(&bytes) } else { Vec::new() };
     let data = Arc::new(bytes);
-    let sig_prefix = format!("{module}:reader:{}:{}", variant_name(variant), malform.class());
+    let api = if stream { "stream-" } else { "" };
+    let sig_prefix = format!("{module}:reader:{api}{}:{}", variant_name(variant), malform.class());
     for cfg in cfgs {
         let wl = if rd::has_worker_count(kind) { Some(cfg.workers) } else { None };
         pair_counters(o, module, part, cfg, wl);
@@ -595,20 +651,22 @@ fn run_rd(w: &World, o: &mut CaseOut, item: &Item, variant: Variant, reseal: usi
         hook::arm(&frames, hook::make_delays(cfg.plan, frames.len(), cfg.workers, &mut prng));
         let src = PollRead::new(data.clone(), cfg.script.clone());
         let stats = src.stats.clone();
-        let fut = rd::transcript(kind, variant, src, side.clone(), cfg.workers);
-        let res = rt::run(cfg.flavor, fut);
+        let res = if stream { rt::run(cfg.flavor, rd::transcript_stream(kind, variant, src, cfg.workers)) } else { rt::run(cfg.flavor, rd::transcript(kind, variant, src, side.clone(), cfg.workers)) };
         let log = hook::disarm();
         stats_fold(o, module, &stats.lock().unwrap());
         if rd::uses_bgzf(kind) {
             order_fold(o, module, "inflate", wl, cfg.plan, &hook::analyse(&log, true));
         }
-        o.fps.push(cfg_fp(module, &format!("rd|{}|{}|{}", variant_name(variant), malform.class(), reseal > 0), cfg));
+        o.fps.push(cfg_fp(module, &format!("rd|{}|{}|{}|{}", variant_name(variant), malform.class(), reseal > 0, stream), cfg));
         match res {
             Err(e) => run_err(o, &sig_prefix, &format!("{} ({:?})", item.name, malform), cfg, e),
             Ok(got_raw) => {
                 let got = strip_all(got_raw.clone());
                 if let Some((i, class)) = diff_class(&expected, &got) {
-                    let sig = rd_signature(kind, variant, malform, &data, &expected, &got, i, &class);
+                    let mut sig = rd_signature(kind, variant, malform, &data, &expected, &got, i, &class, sync_msg.as_deref());
+                    if stream && !sig.starts_with("bgzf-layer:") {
+                        sig = sig.replacen(":reader:", ":reader:stream-", 1);
+                    }
                     o.violation_with(
                         sig,
                         format!(
@@ -624,7 +682,7 @@ fn run_rd(w: &World, o: &mut CaseOut, item: &Item, variant: Variant, reseal: usi
                             got_raw.get(i + 1..(i + 3).min(got_raw.len())).map(|v| v.iter().map(|s| short(s)).collect::<Vec<_>>()),
                             cfg_json(cfg)
                         ),
-                        json!({"sync_error_message": corpus::last_error_message()}),
+                        json!({"sync_error_message": sync_msg}),
                     );
                 } else {
                     o.count("reader_pairs_equal", 1);
@@ -641,7 +699,7 @@ fn run_rd(w: &World, o: &mut CaseOut, item: &Item, variant: Variant, reseal: usi
 ///   whatever format sits on top => `bgzf-layer:reader:<cut class>:…`;
 /// * virtual positions that differ but denote the same uncompressed offset (other member boundary representation).
 #[allow(clippy::too_many_arguments)]
-fn rd_signature(kind: Kind, variant: Variant, malform: &Malform, bytes: &[u8], expected: &[String], got: &[String], i: usize, class: &str) -> String {
+fn rd_signature(kind: Kind, variant: Variant, malform: &Malform, bytes: &[u8], expected: &[String], got: &[String], i: usize, class: &str, sync_msg: Option<&str>) -> String {
     let mut input = malform.class();
     if kind.is_bgzf_wrapped() {
         if let Malform::Truncate(_) = malform {
@@ -649,7 +707,8 @@ fn rd_signature(kind: Kind, variant: Variant, malform: &Malform, bytes: &[u8], e
             let (eb, et) = terminator(expected);
             let (gb, gt) = terminator(got);
             let prefix_related = eb == gb || (gb.len() < eb.len() && eb[..gb.len()] == *gb) || (eb.len() < gb.len() && gb[..eb.len()] == *eb);
-            if input == "truncated-in-member-header" && et == "END" && gt == "ERR:UnexpectedEof" && gb.len() <= eb.len() && prefix_related {
+            // (the sync side then either ends cleanly or fails later / differently in the format layer on the short data)
+            if input == "truncated-in-member-header" && gt == "ERR:UnexpectedEof" && et != gt && gb.len() <= eb.len() && prefix_related {
                 return "bgzf-layer:reader:truncated-in-member-header:async-UnexpectedEof-where-sync-ends-cleanly".into();
             }
             if input == "truncated-in-member-body" && et == "ERR:UnexpectedEof" && gt == "ERR:InvalidData" && prefix_related {
@@ -667,6 +726,26 @@ fn rd_signature(kind: Kind, variant: Variant, malform: &Malform, bytes: &[u8], e
                         return format!("{}:reader:{}:{}:virtual-position-other-member-boundary-same-data-offset", kind.name(), variant_name(variant), input);
                     }
                 }
+            }
+        }
+    }
+    if matches!(kind, Kind::Cram | Kind::Crai) && *malform != Malform::None && class.starts_with("same-elements:ERR:") && class.contains("->ERR:") {
+        // gzip streams (CRAI file, CRAM file header block) are inflated by flate2 on the sync side and by
+        // async-compression on the async side; the two map a damaged stream to different io::ErrorKinds
+        let m = sync_msg.unwrap_or("");
+        if m.contains("deflate") || m.contains("gzip") || m == "unexpected end of file" {
+            return format!("{}:reader:{}:{}:gzip-layer-error-kind-differs", kind.name(), variant_name(variant), input);
+        }
+    }
+    if matches!(kind, Kind::Fasta | Kind::Fastq) && class.starts_with("diverges-at-record") {
+        if let (Some(e), Some(g)) = (expected.get(i), got.get(i)) {
+            // `corpus::render::esc` shows a carriage return as the two characters `\r`
+            let (ne, ng) = (e.matches("\\r").count(), g.matches("\\r").count());
+            if ne != ng && g.replace("\\r", "") == e.replace("\\r", "") {
+                // the elements differ only in carriage returns: line-terminator handling depends on where the reads of
+                // the underlying source end (CR | LF split => kept; a lone CR at the end of a read => dropped)
+                let which = if ng > ne { "async-keeps-carriage-return" } else { "async-drops-lone-carriage-return" };
+                return format!("{}:reader:{}:crlf-input:{which}", kind.name(), variant_name(variant));
             }
         }
     }
@@ -707,8 +786,22 @@ fn run_sk(o: &mut CaseOut, item: &Item, reseal: usize, hseed: u64, cfgs: &[Cfg],
         match res {
             Err(e) => run_err(o, "bgzf:seek", &item.name, cfg, e),
             Ok(got) => {
-                if let Some((i, class)) = sk::first_diff(&expected, &got) {
-                    // what kind of operation shows the difference, and after which kind of seek
+                // every operation is compared; after an operation that differs, the reader state is tainted until the next
+                // seek re-establishes it (consequences of one difference are not reported as further differences)
+                let mut tainted = false;
+                let mut sigs: Vec<String> = Vec::new();
+                let mut compared = 0u64;
+                for i in 0..expected.len().max(got.len()) {
+                    let is_seek = matches!(ops.get(i), Some(sk::Op::Seek(_) | sk::Op::SeekU(_)));
+                    if is_seek {
+                        tainted = false;
+                    }
+                    if tainted {
+                        continue;
+                    }
+                    compared += 1;
+                    let Some(class) = sk::obs_diff(expected.get(i), got.get(i)) else { continue };
+                    tainted = true;
                     let op = match ops.get(i) {
                         Some(sk::Op::Seek(_)) => "seek",
                         Some(sk::Op::SeekU(_)) => "seek-uncompressed",
@@ -720,8 +813,13 @@ fn run_sk(o: &mut CaseOut, item: &Item, reseal: usize, hseed: u64, cfgs: &[Cfg],
                         sk::Op::SeekU(_) => Some("uncompressed-offset"),
                         _ => None,
                     });
+                    let sig = format!("bgzf:seek:{class}:{op}:{}", last_seek.unwrap_or("no-seek-before"));
+                    if sigs.contains(&sig) {
+                        continue;
+                    }
+                    sigs.push(sig.clone());
                     o.violation(
-                        format!("bgzf:seek:{class}:{op}:{}", last_seek.unwrap_or("no-seek-before")),
+                        sig,
                         format!(
                             "{} (reseal {}): operation #{i} {:?}: sync reader observed {:?}, async reader {:?}; history: {:?} [{}]",
                             item.name,
@@ -729,11 +827,16 @@ fn run_sk(o: &mut CaseOut, item: &Item, reseal: usize, hseed: u64, cfgs: &[Cfg],
                             ops.get(i),
                             expected.get(i),
                             got.get(i),
-                            &ops[..=i.min(ops.len() - 1)],
+                            &ops[i.saturating_sub(6)..=i.min(ops.len() - 1)],
                             cfg_json(cfg)
                         ),
                     );
-                } else {
+                    if expected.get(i).map(|e| e.1.starts_with("err")).unwrap_or(true) || got.get(i).map(|g| g.1.starts_with("err")).unwrap_or(true) {
+                        break; // one side stopped here
+                    }
+                }
+                o.count("seek_ops_compared", compared);
+                if sigs.is_empty() {
                     o.count("seek_pairs_equal", 1);
                 }
             }
@@ -786,6 +889,10 @@ fn run_qy(o: &mut CaseOut, data: &Item, index: &Item, mode: qy::Mode, qseed: u64
         }
     };
     o.count(&format!("query_records_sync[{}]", mode.name()), expected.iter().filter(|s| s.starts_with("R:")).count() as u64);
+    let starts = match guard::catch(|| qy::chunk_starts(mode, &data.bytes, &index.bytes, &queries)) {
+        Ok(Ok(s)) => s,
+        _ => queries.iter().map(|_| None).collect(),
+    };
     let frames = if mode.uses_bgzf() { frames_of(&data.bytes) } else { Vec::new() };
     let bytes = Arc::new(data.bytes.clone());
     for cfg in cfgs {
@@ -812,37 +919,65 @@ fn run_qy(o: &mut CaseOut, data: &Item, index: &Item, mode: qy::Mode, qseed: u64
             ),
             Ok(Ok(got_raw)) => {
                 let got = strip_all(got_raw.clone());
-                if let Some((i, class)) = diff_class(&expected, &got) {
-                    // which query (and was it a repeat of the one before?)
-                    let qi = expected[..=i.min(expected.len() - 1)].iter().filter(|s| s.starts_with("Q:")).count().saturating_sub(1);
-                    let repeat = qi > 0 && queries.get(qi).map(|q| q.describe()) == queries.get(qi - 1).map(|q| q.describe());
+                // every query of the history is compared on its own (each query starts with a seek)
+                let (es, gs) = (segments(&expected), segments(&got));
+                let mut sigs: Vec<String> = Vec::new();
+                for qi in 0..es.len().max(gs.len()) {
+                    let (e, g) = (es.get(qi).copied().unwrap_or(&[]), gs.get(qi).copied().unwrap_or(&[]));
+                    o.count("query_segments_compared", 1);
+                    let Some((i, class)) = diff_class(e, g) else { continue };
+                    // root cause check: does this query start with a poll_seek to the position of the previous poll_seek?
+                    let prev_last = starts.iter().take(qi).rev().find_map(|s| s.map(|x| x.1));
+                    let same_seek = matches!((starts.get(qi).copied().flatten(), prev_last), (Some((first, _)), Some(prev)) if first == prev);
                     let qclass = match queries.get(qi) {
                         Some(qy::Q::Unmapped) => "unmapped",
-                        Some(_) if repeat => "repeated-region",
+                        Some(_) if same_seek => "region-whose-first-chunk-starts-where-the-previous-seek-went",
                         Some(_) => "region",
                         None => "none",
                     };
+                    let sig = if same_seek && qclass != "unmapped" { format!("{sig_prefix}:{qclass}") } else { format!("{sig_prefix}:{class}:{qclass}") };
+                    if sigs.contains(&sig) {
+                        continue;
+                    }
+                    sigs.push(sig.clone());
                     o.violation(
-                        format!("{sig_prefix}:{class}:{qclass}"),
+                        sig,
                         format!(
-                            "{} + {}: element #{i} (query #{qi} {:?} of {:?}): sync: {:?}; async: {:?} (sync {} elements, async {}) [{}]",
+                            "{} + {}: query #{qi} {:?} of the history {:?}: element #{i} of its results: sync: {:?}; async: {:?} (sync {} elements, async {}) [{}]",
                             data.name,
                             index.name,
                             queries.get(qi).map(|q| q.describe()),
                             queries.iter().map(|q| q.describe()).collect::<Vec<_>>(),
-                            expected.get(i).map(|s| short(s)),
-                            got_raw.get(i).map(|s| short(s)),
-                            expected.len(),
-                            got.len(),
+                            e.get(i).map(|s| short(s)),
+                            g.get(i).map(|s| short(s)),
+                            e.len(),
+                            g.len(),
                             cfg_json(cfg)
                         ),
                     );
-                } else {
+                }
+                if sigs.is_empty() {
                     o.count("query_pairs_equal", 1);
                 }
             }
         }
     }
+}
+
+/// Splits a query transcript into one slice per query (each starts with its `Q:` element).
+fn segments(t: &[String]) -> Vec<&[String]> {
+    let mut v = Vec::new();
+    let mut start = 0;
+    for (i, s) in t.iter().enumerate() {
+        if s.starts_with("Q:") && i > start {
+            v.push(&t[start..i]);
+            start = i;
+        }
+    }
+    if start < t.len() {
+        v.push(&t[start..]);
+    }
+    v
 }
 
 fn filter_elems(t: &[String], keep: &[&str]) -> Vec<String> {
@@ -971,19 +1106,23 @@ fn run_wr(o: &mut CaseOut, item: &Item, level: Option<u8>, cfgs: &[Cfg]) {
                                     let (mut sa, mut ss) = (ha.clone(), hs.clone());
                                     sa.sort_unstable();
                                     ss.sort_unstable();
+                                    let (pa, ps) = (wa.concat(), ws.concat());
+                                    let d = pa.iter().zip(&ps).position(|(x, y)| x != y).unwrap_or(pa.len().min(ps.len()));
                                     let class = if sa == ss {
-                                        "blocks-reordered"
-                                    } else if wa.total < ws.total {
-                                        "payload-shorter"
-                                    } else if wa.total > ws.total {
-                                        "payload-longer"
+                                        "blocks-reordered".to_string()
+                                    } else if pa.len() < ps.len() && pa[d..] == ps[d + (ps.len() - pa.len())..] {
+                                        format!("payload-misses-a-span-of-{}-bytes", ps.len() - pa.len())
+                                    } else if pa.len() < ps.len() {
+                                        "payload-shorter".to_string()
+                                    } else if pa.len() > ps.len() {
+                                        "payload-longer".to_string()
                                     } else {
-                                        "payload-differs"
+                                        "payload-differs".to_string()
                                     };
                                     o.violation(
                                         format!("{sig_prefix}:{class}"),
                                         format!(
-                                            "{what}: the async output inflates to {} bytes in {} members, the sync output to {} bytes in {} members, and the payloads differ (deflate inversions observed in this run: {}) [{}]",
+                                            "{what}: the async output inflates to {} bytes in {} members, the sync output to {} bytes in {} members, and the payloads differ from byte {d} on (deflate inversions observed in this run: {}) [{}]",
                                             wa.total,
                                             wa.members.len(),
                                             ws.total,
@@ -1033,10 +1172,25 @@ fn run_case(ctx: &Ctx, w: &World, c: &Case) -> CaseOut {
     let mut o = CaseOut::new();
     o.evaluations = c.cfgs.len() as u64;
     match &c.what {
-        What::Rd { item, variant, reseal, malform } => run_rd(w, &mut o, &w.items[*item], *variant, *reseal, malform, &c.cfgs),
+        What::Rd { item, variant, reseal, malform, stream } => run_rd(w, &mut o, &w.items[*item], *variant, *reseal, malform, *stream, &c.cfgs),
         What::Sk { item, reseal, hseed } => run_sk(&mut o, &w.items[*item], *reseal, *hseed, &c.cfgs, ctx.quick()),
         What::Qy { data, index, mode, qseed } => run_qy(&mut o, &w.items[*data], &w.items[*index], *mode, *qseed, &c.cfgs, ctx.quick()),
         What::Wr { item, level } => run_wr(&mut o, &w.items[*item], *level, &c.cfgs),
+        What::Wb { class, len, split, flush_every, level, pseed } => {
+            let mut rng = Rng::new(*pseed, 0xB8, 0);
+            let payload = vcore::payload::make(class, *len, &mut rng);
+            let pieces = vcore::payload::split_pattern(split, *len, &mut rng);
+            let mut ops = Vec::new();
+            for (i, n) in pieces.iter().enumerate() {
+                ops.push(corpus::BgzfOp::Write(*n));
+                if *flush_every > 0 && (i + 1) % flush_every == 0 {
+                    ops.push(corpus::BgzfOp::Flush);
+                }
+            }
+            let side = corpus::Side { model: Some(payload), writable: true, bgzf_ops: ops, ..corpus::Side::default() };
+            let item = Item { kind: Kind::Bgzf, name: format!("bgzf/seeded-{class}-{len}B-{split}-flush{flush_every}"), bytes: Vec::new(), side };
+            run_wr(&mut o, &item, Some(*level), &c.cfgs)
+        }
     }
     if o.sample.is_none() && o.violations.is_empty() {
         o.sample = Some(case_json(w, c));
@@ -1113,7 +1267,6 @@ fn main() {
                 }
             }
         }
-        rep.extra.insert("hook_hits".into(), json!(hook::HOOK_HITS.load(std::sync::atomic::Ordering::Relaxed)));
         rep.extra.insert("cases".into(), json!(w.cases.len()));
     }
     rep.finish(&ctx);
